@@ -22,7 +22,7 @@ class C19(KernelProp):
     n_ops = (10, 40)
     weights = {"new": 10, "enter": 14, "exit": 4, "add": 18, "addf": 12, "getnw": 4, "get": 3, "finish": 1,
                "getall": 1, "addtd": 0, "current": 1, "parent": 0, "spawn": 3, "state": 0, "inject": 30, "decorate": 8}
-    gen_kwargs = {"max_ctx": 8, "malformed": 0.02, "wrong_state": 0.03, "gated": 0.1, "exc_end": 0.2, "p_again": 0.35, "p_forget": 0.7}
+    gen_kwargs = {"max_ctx": 8, "malformed": 0.02, "wrong_state": 0.03, "gated": 0.1, "exc_end": 0.2, "p_again": 0.35, "p_forget": 0.7, "p_comp": 0.3}
     rule = ("functions generated as source text and exec'd: positional, keyword-only and defaulted ordinary parameters, "
             "1-4 injected parameters (positional-or-keyword and keyword-only), annotations T, 'T' (forward reference), "
             "Optional[T], T | None, 'T | None', Union[T, None], Union of two types; sync and async functions; resources "
